@@ -271,6 +271,8 @@ def run_trace_family(ctx, fam, driver):
             for f in glob.glob(rl + '*'):
                 os.remove(f)
             env = dict(GORACE='log_path=%s halt_on_error=0 exitcode=0' % rl, VERIF_RACE_LOG=rl)
+        if 'prepare' in fam:      # spec -> code: TLC generates the behaviours the driver replays
+            env = dict(env or {}, **fam['prepare'](ctx, fam, seed))
         d = run_driver(ctx, driver, fam['profile'], tf, seed, args=args, timeout=fam.get('driver_timeout', 1500), env=env)
         res = validate(ctx, spec, tf, enforce, consts=fam.get('consts', ''), timeout=fam.get('tlc_timeout', 1500))
         ntr, nev = account_trace(ctx, tf, sig=fam.get('sig'), trace_event=fam.get('trace_event', 'reset'))
@@ -293,7 +295,12 @@ def run_trace_family(ctx, fam, driver):
                         again = True
                         break
                 if not again:
-                    save_replay(ctx, tf, res, fam['profile'], seed, extra=dict(spec=spec, enforce=enforce, consts=fam.get('consts', ''), note='did not reproduce in 3 re-runs'))
+                    pth = save_replay(ctx, tf, res, fam['profile'], seed, extra=dict(spec=spec, enforce=enforce, consts=fam.get('consts', ''), note='did not reproduce in 3 re-runs'))
+                    try:
+                        err = open(d['stderr'], errors='replace').read()
+                        open(os.path.join(pth, 'driver.stderr'), 'w').write(err[:100000] + ('\n...\n' + err[-100000:] if len(err) > 200000 else err[100000:]))
+                    except OSError:
+                        pass
                     raise Infra('rejection of %s seed %d did not reproduce in 3 re-runs (line %s, %s); the rejected trace is saved under replays/' % (fam['profile'], seed, res['line'], res['failed']))
             path = save_replay(ctx, tf, res, fam['profile'], seed, extra=dict(spec=spec, enforce=enforce, consts=fam.get('consts', '')))
             try:
@@ -356,6 +363,9 @@ def run_property(ctx, prop):
     viol = []
     for fam in prop.get('traces', []):
         if fam.get('tiers') and ctx.tier not in fam['tiers']:
+            continue
+        only = os.environ.get('VERIF_DEV_ONLY')    # development aid only (with VERIF_DEV_SKIP_MC): one family by name/profile
+        if only and os.environ.get('VERIF_DEV_SKIP_MC') and only not in (fam.get('name'), fam.get('profile')):
             continue
         driver = build_driver(ctx, race=fam.get('race', False))
         if 'run' in fam:
